@@ -607,13 +607,38 @@ def second_fault_pass(rng, rec):
     operating system refuses to DELETE a file of the key (EACCES from unlink) - the removal of an entry its validator
     just rejected, the clean-up of a temporary after a failed attempt."""
     out = []
+    gets = {o["id"]: o for o in rec["ops"] if o["op"] == "GET"}
     for f in rec["faults"]:
-        if f.get("key") is None:
+        # only for a key the operation itself REQUESTS: a refused deletion of some other entry (an eviction victim, a
+        # removal, a purge - faults for zombie workers are planned on such operations too) legitimately makes that
+        # operation raise and forget the entry (false alarm found by `vp check` under VERIF_SEED=1, DESIGN 15.5 item 32)
+        if f.get("key") is None or f["op"] not in gets or f["key"] not in gets[f["op"]]["keys"]:
             continue
         p = 0.35 if f["kind"] in ("VALIDATE_FALSE", "VALIDATE_IOERROR") else 0.04
         if rng.random() < p and not any(g["kind"] == "UNLINK_EACCES" and g["op"] == f["op"] for g in rec["faults"] + out):
             out.append({"op": f["op"], "kind": "UNLINK_EACCES", "key": f["key"], "nth": 0})
     rec["faults"] += out
+
+
+def odd_inputs_pass(rng, rec):
+    """(round 21, own PRNG stream) (a) the http server sends Last-Modified / ETag / Date headers with a date years in the
+    past or in the future; (b) an object whose NAME contains ">>" next to the object named by the part in front of it
+    (the docstring of __getitem__ calls ">>" the comment separator, the code and everybody's cache files use "<<")."""
+    knobs = rec["knobs"]
+    keys, rs = knobs["keys"], knobs["res_sizes"]
+    if any(k["scheme"] == "https" for k in keys) and rng.random() < 0.5:
+        knobs["http_last_modified"] = rng.choice(["past", "past", "future"])
+    if rec["property"] == "C19" and rng.random() < 0.08:
+        # (c) downloads and post-processors that fail with an exception deriving from Warning (a numpy/xarray
+        # warning in a process run with -W error)
+        knobs["err_type"] = rng.choice(["warning", "userwarning"])
+    if len(keys) >= 2 and rng.random() < 0.06 and not knobs.get("mass_eviction"):
+        a = keys[0]
+        if "/" not in a["res"] and not a["comment"] and a["scheme"] in ("sim", "https"):
+            twin = a["res"] + ">>" + rng.choice(["v2", "c1", "2023-06-01"])
+            if not any(k["res"] == twin for k in keys):
+                rs[twin] = rng.choice([100, 300, 1000])
+                keys[1] = dict(keys[1], scheme=a["scheme"], res=twin, comment="")
 
 
 def directive_names_pass(rng, rec):
@@ -690,6 +715,7 @@ def generate(prop, seed, profile=None):
             if rng.random() < 0.3:
                 rec["crash2"] = gen_second_crash(rng, knobs, rec["ops"], rec["crash"])
     mass_eviction_pass(random.Random(mix(seed, "mass-eviction", prop)), rec)
+    odd_inputs_pass(random.Random(mix(seed, "odd-inputs", prop)), rec)
     directive_names_pass(random.Random(mix(seed, "directive-names", prop)), rec)
     if prop == "C19":
         second_fault_pass(random.Random(mix(seed, "second-faults", prop)), rec)
